@@ -302,6 +302,19 @@ func TestLpRx(t *testing.T) {
 		total += lpRxExec(w, rec, mtu, all, order, msgs, toks, marks)
 		execs++
 	}
+	// (c) packets up to the maximum NDN packet size over the smallest MTUs (many fragments), in order and shuffled
+	for _, mtu := range []int{128, 129, 160, 200, 300, 576} {
+		for _, sz := range []int{8800, 8799, 7500, 6000, 5000, 3000 + rng.Intn(5000)} {
+			all, msgs, toks, marks := build(mtu, []int{sz})
+			inorder := make([]int, len(all))
+			for i := range inorder {
+				inorder[i] = i
+			}
+			total += lpRxExec(w, rec, mtu, all, inorder, msgs, toks, marks)
+			total += lpRxExec(w, rec, mtu, all, rng.Perm(len(all)), msgs, toks, marks)
+			execs += 2
+		}
+	}
 	writeMeta("lp_rx.meta.json", map[string]any{"executions": execs, "events": total})
 }
 
